@@ -68,6 +68,12 @@ class Result:
         v.update(kw)
         self.violations.append(v)
 
+    def seen(self, rule, construct):
+        """an instance that was enumerated but whose verdict is subsumed by an earlier report (keeps floors meaningful)"""
+        r = self.rules[rule]
+        r["instances"] += 1
+        r["constructs"].add(str(construct))
+
     def count(self, key, n=1):
         self.analysed[key] = self.analysed.get(key, 0) + n
 
@@ -76,10 +82,6 @@ class Result:
         wall = time.time() - self.t0
         known = load_known()
         # floors: a rule that matched fewer instances than confirmed by hand is broken
-        for name, r in self.rules.items():
-            if r["instances"] < r["floor"]:
-                raise AnalysisError(f"rule {name}: {r['instances']} instances, below the confirmed floor "
-                                    f"{r['floor']} — anchors moved or the front end lost coverage")
         new, listed = [], []
         for v in self.violations:
             hit = None
@@ -90,6 +92,13 @@ class Result:
                     hit = k
                     break
             (listed if hit else new).append((v, hit))
+        # floors: a rule that matched fewer instances than confirmed by hand is broken -- unless the run already reports
+        # a new violation (a deleted or reshaped instance is then reported by its rule, which is the more useful verdict)
+        if not new:
+            for name, r in self.rules.items():
+                if r["instances"] < r["floor"]:
+                    raise AnalysisError(f"rule {name}: {r['instances']} instances, below the confirmed floor "
+                                        f"{r['floor']} — anchors moved or the front end lost coverage")
         for v, k in listed:
             print(f"KNOWN-FINDING: property={self.pid} rule={v['rule']} construct={v['construct']} "
                   f"{v['file']}:{v['line']} {v['msg']}")
